@@ -139,6 +139,16 @@ def run(pid, plan, tier, seed, work, replay, t0):
 
     # replay on the real code (Layer 1) and observation check (O)
     files = vlib.run_sim(h["raft"], schedules, work)
+    # randomized driver on the real code (same records; validated against the spec below)
+    if not replay:
+        for fi, fz in enumerate(plan.get("fuzz", {}).get(tier, [])):
+            spec = dict(fz, seed=seed, name="fuzz%d" % fi)
+            ff = vlib.run_fuzz(h["raft"], spec, work, tag="fuzz%d" % fi)
+            fs = vlib.schedules_from_records(ff)
+            schedules += fs
+            files += ff
+            log("fuzz[%d]: %d randomized runs of up to %d steps on the real code" % (fi, len(fs), fz["steps"]))
+            cov["model_runs"].append({"config": "fuzz-%d" % fi, "spec": fz, "runs": len(fs)})
     viol = []
     if files:
         allrec = vlib.concat(files, os.path.join(work, "records.ndjson"))
